@@ -35,7 +35,7 @@ var NotApplicable = []NA{
 	{"C01", "pure codec over inputs (all headers, lengths, byte strings): no transport, fault, schedule or history in its statement; deterministic simulation has nothing to decide (DESIGN.md §5). Header parsing from a segmented transport is exercised incidentally by C04/C05/C16."},
 	{"C02", "XOR masking is a pure function of (payload, key, offset); 'any chunking' is an argument, not an environment (DESIGN.md §5). CipherReader under seeded segmentation is exercised incidentally by C04, client masking by C06/C08."},
 	{"C03", "pure predicates over (header, state) and (code, reason); the simulator uses an independent restatement of these rules as its oracle and does not test them (DESIGN.md §5)."},
-	{"C08", notYet},
+	
 	{"C09", "decision of the upgrader over all requests of a grammar x callback configurations: a pure function of the request bytes; the simulation only ever feeds it requests written by the library's own dialer (C11) or cuts of them (C16) (DESIGN.md §5)."},
 	{"C10", "decision of the dialer over all responses of a grammar and URL forms: a pure function of response bytes and configuration; only its 'bytes after the head stay readable' clause has a delivery dimension and that is checked inside C11/C16 (DESIGN.md §5)."},
 	{"C11", notYet}, {"C12", notYet}, {"C13", notYet},
@@ -87,6 +87,12 @@ var All = []*Spec{
 		LevelText: "seeded exploration; oracle is unicode/utf8.Valid on the concatenated payload: valid <=> delivered complete without error, invalid => ErrInvalidUTF8 no later than the end and never a complete message; binary never checked; UTF8Reader.Valid() after draining equals utf8.Valid and a reject is never premature.",
 		LevelNote: "trusted: unicode/utf8 as the definition of well-formed UTF-8.",
 		DesignRef: "§4 C07", Technique: "deterministic simulation: seeded fragment/segment/buffer boundaries vs unicode/utf8 oracle"},
+	{ID: "C08", Engine: "wire", Level: "exploration", Quick: 24000, Thorough: 2400000,
+		Rule: "each run draws side, an entry point (ControlHandler.Handle on a masked or pre-unmasked source, ControlFrameHandler called directly, HandleControlMessage and its Client/Server variants, Reader loop with ControlFrameHandler as OnIntermediate, ReadMessage+HandleControlMessage, ReadData inline) and ping/pong/close frames with payloads 0..125 (close codes from every RFC class, valid / invalid-UTF-8 / 1-byte bodies) alone or between data fragments under seeded segmentation; or a history of 1-6 Write/Flush calls on NewControlWriter / NewControlWriterBuffer whose total crosses 125; non-trivial = at least one control frame handled; distinct = trace digests",
+		Stub: stubWire, Assume: assumeCommon,
+		LevelText: "seeded exploration; the reply ledger is decoded by the reference decoder: ping -> one pong with identical payload, pong -> nothing, close -> same code / empty / 1002 (1002 or 1007 for a bad reason) with a body the RFC close rules accept; every reply is a single final frame <=125, masked iff sent by a client, accepted by ws.CheckHeader under the peer's state; return value is ClosedError{code,reason} or a ws.ProtocolError; the control writer never emits a frame >125 or non-final and refuses the write that would cross the limit.",
+		LevelNote: "whether the close reason is echoed and the mask value are not checked; codes 1012-1014 and >=5000 are never generated (left open by the property).",
+		DesignRef: "§4 C08", Technique: "deterministic simulation: seeded control frames through every entry point vs reference reply table"},
 	{ID: "C16", Engine: "wire", Level: "fault_enumeration", Quick: 640, Thorough: 64000, QuickCap: 150, ThorCap: 1700,
 		Rule: "workloads (stream, entry point, segmentation, application decisions) are sampled from the seed; for each workload the fault point is enumerated: every byte offset of the stream x {EOF, transport error} when the stream is <= 2 KiB (else all offsets around every header/frame boundary plus 64 seeded payload offsets), the same application decisions being replayed at every point; evaluations = workloads, fault_points_enumerated = executions; distinct = trace digests of workloads",
 		Stub: stubWire, Assume: assumeCommon,
